@@ -212,7 +212,7 @@ func (h *Handler) handleQuery(r *http.Request, w http.ResponseWriter, query *cal
 	// TODO: calendar-data in query.Prop
 	cf, err := decodeCompFilter(&query.Filter.CompFilter)
 	if err != nil {
-		return err
+		return &internal.HTTPError{Code: http.StatusBadRequest, Err: err}
 	}
 	q.CompFilter = *cf
 
